@@ -22,6 +22,7 @@ LEVEL = "exploration"
 NEEDS_RUST = True
 WORKERS = 14
 CASE_TIMEOUT = 420
+QUIESCENCE_SCOPE = "process"   # helpers are polling feeders only
 QUIESCENCE_AFTER = 60.0
 REQUIRED_OBS = ["streams", "epoch_checks", "periodicity_checks", "rust_epoch_permutations", "interleaved_stream_pairs"]
 RULE = ("datasets (all formats, 1..many shards, nested lists) x interface x shuffle {0, small, >N} x "
